@@ -29,9 +29,17 @@ struct PairsRun {
     bool is_inf2(const void* a) { uint8_t c[193]; R.jv_g2a_canon(c, a); return c[0] == 1; }
 
     void op_point(const Op& op, int g) {
-        size_t idx = (size_t) op.arg(0) % NP; int src = (int) op.arg(1) % 4;
+        size_t idx = (size_t) op.arg(0) % NP; int src = (int) op.arg(1) % 5;
         std::vector<uint8_t> k = unhex(op.s.empty() ? "01" : op.s[0]); k.resize(32);
         Buf tmp(g == 1 ? R.sz(JV_SZ_G1A) : R.sz(JV_SZ_G2A)); env.lib_calls += 2;
+        if (src == 4) {
+            // the caller marks the object as the identity by setting its flag; the coordinates stay what they were (every predicate of the
+            // library reads the flag only, so this object IS an identity element)
+            uint8_t c[193]; if (g == 1) R.jv_g1a_canon(c, g1[idx].p); else R.jv_g2a_canon(c, g2[idx].p);
+            if (c[0] == 1) return;
+            if (g == 1) R.jv_g1a_set_xy(g1[idx].p, c + 1, 2); else { uint8_t be[192]; memcpy(be, c + 49, 48); memcpy(be + 48, c + 1, 48); memcpy(be + 96, c + 145, 48); memcpy(be + 144, c + 97, 48); R.jv_g2a_set_xy(g2[idx].p, be, 2); }
+            env.count("fault:identity_flag_set_on_object_holding_coordinates"); env.logf("P%d %zu flagged", g, idx); return;
+        }
         if (src == 0) R.jv_const_get(g == 1 ? JV_EK_G1A : JV_EK_G2A, 0, tmp);
         else if (src == 1) R.jv_const_get(g == 1 ? JV_EK_G1A : JV_EK_G2A, 1, tmp);
         else if (g == 1) { Buf gen(R.sz(JV_SZ_G1A)); R.jv_const_get(JV_EK_G1A, 1, gen); G1v p; R.jv_g1_multiply_affine(view, p.b, gen, k.data()); R.jv_g1affine_from_projective(view, tmp, p.b); }
@@ -109,8 +117,8 @@ struct PairsScenario : Scenario {
         int n = r.range(4, 22);
         for (int i = 0; i < n; i++) {
             int k = r.range(0, 11);
-            if (k == 0) p.ops.push_back({"P1", {(int64_t) r.below(6), r.range(0, 3)}, {rh()}});
-            else if (k == 1) p.ops.push_back({"P2", {(int64_t) r.below(6), r.range(0, 3)}, {rh()}});
+            if (k == 0) p.ops.push_back({"P1", {(int64_t) r.below(6), r.range(0, 4)}, {rh()}});
+            else if (k == 1) p.ops.push_back({"P2", {(int64_t) r.below(6), r.range(0, 4)}, {rh()}});
             else if (k == 2) p.ops.push_back({"PREP", {(int64_t) r.below(6), (int64_t) r.below(6)}, {}});
             else if (k == 3) p.ops.push_back({"AREC", {(int64_t) r.below(5), (int64_t) r.below(6), (int64_t) r.below(6)}, {}});
             else if (k == 4) p.ops.push_back({"PREC", {(int64_t) r.below(5), (int64_t) r.below(6), (int64_t) r.below(6)}, {}});
